@@ -62,7 +62,7 @@ CHECK = {
         suite("fault", "c17", 10, 80, stdin=True, args=["-suite", "fault"], timeout={"quick": 600, "thorough": 1500}),
         suite("conc", "c17", 7, 90, stdin=True, args=["-suite", "conc"], timeout={"quick": 600, "thorough": 1500}),
         suite("join", "c17", 4, 120, stdin=True, args=["-suite", "join"], timeout={"quick": 600, "thorough": 1500}),
-        suite("depart", "c17", 6, 60, stdin=True, args=["-suite", "depart", "-par", "9"], timeout={"quick": 600, "thorough": 1500}),
+        suite("depart", "c17", 4, 60, stdin=True, args=["-suite", "depart", "-par", "9"], timeout={"quick": 600, "thorough": 1500}),
         suite("cluster", "c17", 5, 100, stdin=True, args=["-suite", "cluster"], timeout={"quick": 600, "thorough": 2400}),
     ],
     "gen": [{"pkg": "extract_c17", "out": "lean/ClusterVerif/Gen/C17.lean"}],
@@ -86,12 +86,13 @@ CHECK = {
             "under the oracle the plan stands for. conc suite (7 scripts quick, 90 thorough): phases of 2-4 calls (one membership change + pins/unpins) "
             "started together from different members, observed at sync points; admitted iff some order of each phase explains it. join suite "
             "(4 scripts quick, 120 thorough): a staging peer is added and waited for while a burst of 16-40 pins is logged. "
-            "depart suite (6 generated histories + 9 corpus lines quick, 60 thorough): ONE observed full Cluster peer of a three-peer cluster is taken "
+            "depart suite (4 generated histories + 9 corpus lines quick, 60 thorough): ONE observed full Cluster peer of a three-peer cluster is taken "
             "through a history of the events of the Lean departure machine (write, removed by another member, removes itself, watchPeers round, "
             "operator Shutdown with/without leave_on_shutdown, restart on its folders; peer_watch_interval 3 s, removals placed early in the watch "
             "period so that what follows is before the next round); observed: Done(), listed by a remaining member, raft.db/snapshots present, "
             "RmPeer(self) seen; compared with depRun over Gen.shutdownSites and the INTERPRETED Gen.shutdownEffects, and judged by the text clauses "
-            "removed_discards / removed_stops. Generated histories avoid the two proposed known findings (corpus only). "
+            "removed_discards / removed_stops. Generated histories include removed-by-another-then-stopped-before-the-watch-round again (was K17a, repaired by "
+            "/repo 3277283: a revert fails there as an ordinary propfail) and avoid only K17b (removed while down, restarted: corpus only). "
             "One case per observation point (script so far => what every running peer reports once all caught up); non-trivial = the script "
             "contains a membership step; distinct by case line",
     "trusted_base": ["hashicorp/raft 1.1.1 and go-libp2p-raft: log agreement, configuration changes, snapshots (the model assumes one log whose prefixes members hold)",
@@ -111,9 +112,9 @@ CHECK = {
                     "C17_conc_full (what the concurrent model admits meets the clauses) is stated, not proved: validated by suite conc",
                     "steps are issued only while a quorum of voters is running (otherwise the harness reports the script inconclusive)",
                     "the Raft data folder is observed after Clean: no raft.db, no snapshot; rotated copies are counted next to it",
-                    "departure theorems exclude (`outside`) a peer stopped by the operator between its removal by another member and its watchPeers round "
-                    "(unless Shutdown consults an answering consensus.Peers: proposed fix C17-1) and a peer removed while down: both keep their data, "
-                    "REPRODUCED on real peers by suite depart (proposed known findings K17a, K17b; departure_text_refuted_today)",
+                    "departure theorems on today's code (departure_cleans_today: Shutdown consults consensus.Peers, /repo 3277283) exclude only histories "
+                    "in which consensus.Peers does not answer an operator stop of a removed peer, and a peer removed while it is down (known finding K17b, "
+                    "REPRODUCED on real peers by suite depart; departure_text_refuted_today); removed-by-another-then-stopped (was K17a) is inside the statement",
                     "a ghost peer (removed while down, started again) is given ReadyTimeout = 15 s in suite depart",
                     "pins in scripts carry no origins (not decodable from the Raft log: recorded finding K01 of C08/C01)"],
 }
@@ -137,8 +138,11 @@ META = {
             "(gen_shutdown_effects_agree: for all 128 flag/oracle values the interpretation equals the closed form the departure machine uses; "
             "shutdown_guard_edits_refuted: five realistic guard edits each change it on a concrete input); the departure machine has a restart event and a "
             "`consult` form (Shutdown looks at consensus.Peers itself, read off the regenerated structure), its own case kind `d` on real peers and its own text "
-            "clauses; departure_text_refuted_today states the gap of today's code (stop before the watch round; removed while down and restarted) and "
-            "consult_closes_stop_gap what the proposed repair closes. The model is tied to the code by running seeded scripts on real Raft peers (and full clusters) and comparing outcomes, peersets "
+            "clauses. Round 8c (K17a repaired by /repo 3277283): gen_shutdown_consults reads off the regenerated structure that Shutdown looks at the peerset "
+            "itself; departure_cleans_today / model_meets_text_today: ANY history whose operator stops are answered by consensus.Peers and that never removes the "
+            "peer while it is down ends with a clean stopped non-member (no `outside` marker in the statement: removed by another member and stopped before "
+            "the watch round is covered, k17a_history_cleans_today); no_consult_keeps_data is the refuted alternative (= a revert of 3277283: the same history "
+            "keeps raft.db); departure_text_refuted_today states what is still open (K17b: removed while down and restarted). The model is tied to the code by running seeded scripts on real Raft peers (and full clusters) and comparing outcomes, peersets "
             "and pinsets of every member with the model, by evaluating the Lean property clauses on the implementation's own outputs, and by a go/ast "
             "skeleton of the anchored functions over which the guard/ordering facts are re-checked by `decide`.",
     "note": "Partial by nature: agreement is hashicorp/raft's (trusted). Trusted: Lean kernel, hand-written model/spec, harness, hook file "
